@@ -45,23 +45,53 @@ import (
 // ---------------------------------------------------------------------------------------------
 // known-finding classes (see /verif/known_findings.json)
 
+// Known findings are registered by ROOT CAUSE (one key = one fix); each has one or more
+// sub-symptoms with their own deterministic probe, so a partial fix re-opens exactly the classes it
+// repaired.
 const (
 	// response side
-	vpC36KeyInfo    = "C36/informational-writeheader-latches"
-	vpC36KeyLate    = "C36/header-edit-after-commit-sent"
-	vpC36KeyWHLate  = "C36/writeheader-after-write-honored"
-	vpC36KeyCT304   = "C36/content-type-not-suppressed-on-304"
-	vpC36KeyMultiCT = "C36/repeated-content-type-collapsed"
+	vpC36KeyInfo   = "C36/informational-writeheader-latches"
+	vpC36KeyCommit = "C36/response-not-committed-at-first-write"
 	// ConvertRequest side
-	vpC36KeyMinor     = "C36/convertrequest-protominor-always-1"
-	vpC36KeyConn10    = "C36/convertrequest-http10-synthetic-connection-close"
-	vpC36KeyHostLC    = "C36/convertrequest-host-lowercased"
-	vpC36KeySlash2    = "C36/convertrequest-double-slash-target"
-	vpC36KeySynCL     = "C36/convertrequest-synthetic-content-length"
-	vpC36KeySpecial   = "C36/convertrequest-special-headers-collapsed"
-	vpC36KeyChunked   = "C36/convertrequest-empty-chunked-body-rewritten"
-	vpC36KeyMultipart = "C36/convertrequest-multipart-body-reserialized"
+	vpC36KeyMinor      = "C36/convertrequest-protominor-always-1"
+	vpC36KeyHeaderView = "C36/convertrequest-normalised-header-view"
+	vpC36KeyHostURI    = "C36/convertrequest-host-from-uri"
+	vpC36KeyMultipart  = "C36/convertrequest-multipart-body-reserialized"
+
+	// sub-symptoms (internal labels)
+	vpC36SubLate    = "late-header-edit"          // -> Commit
+	vpC36SubWHLate  = "writeheader-after-write"   // -> Commit
+	vpC36SubConn10  = "http10-connection-close"   // -> HeaderView
+	vpC36SubSynCL   = "bodyless-content-length"   // -> HeaderView
+	vpC36SubSpecial = "special-headers-collapsed" // -> HeaderView
+	vpC36SubChunked = "empty-chunked-rewritten"   // -> HeaderView
+	vpC36SubHostLC  = "host-lowercased"           // -> HostURI
+	vpC36SubSlash2  = "double-slash-target"       // -> HostURI
 )
+
+var vpC36Parent = map[string]string{
+	vpC36KeyInfo: vpC36KeyInfo, vpC36KeyMinor: vpC36KeyMinor, vpC36KeyMultipart: vpC36KeyMultipart,
+	vpC36SubLate: vpC36KeyCommit, vpC36SubWHLate: vpC36KeyCommit,
+	vpC36SubConn10: vpC36KeyHeaderView, vpC36SubSynCL: vpC36KeyHeaderView, vpC36SubSpecial: vpC36KeyHeaderView, vpC36SubChunked: vpC36KeyHeaderView,
+	vpC36SubHostLC: vpC36KeyHostURI, vpC36SubSlash2: vpC36KeyHostURI,
+}
+
+var (
+	vpC36SubMu      sync.Mutex
+	vpC36SubPresent = map[string]bool{} // filled by the probes
+)
+
+// vpC36Open: the class `sub` is to be avoided: its root-cause finding is listed open and the
+// sub-symptom's own probe still reproduces.
+func vpC36Open(sub string) bool {
+	if !vpKnownOpen(vpC36Parent[sub]) {
+		return false
+	}
+	vpC36SubMu.Lock()
+	defer vpC36SubMu.Unlock()
+	p, ok := vpC36SubPresent[sub]
+	return !ok || p
+}
 
 // vpC36Mask lists the single observations that are not compared for a case because they are the
 // exact symptom of an open known finding (everything else of the case is still compared).
@@ -540,24 +570,24 @@ func vpC36Analyse(p *vpC36Prog, reqBodyLen int) vpC36ProgInfo {
 // (the restricted alternatives are only used while the finding is listed open and its probe still
 // reproduces); excl receives the keys whose restriction was active for this program.
 func vpC36GenProg(t *rapid.T, excl map[string]bool) *vpC36Prog {
-	noInfo := vpKnownOpen(vpC36KeyInfo)
-	noLate := vpKnownOpen(vpC36KeyLate)
-	noWHLate := vpKnownOpen(vpC36KeyWHLate)
-	noCT304 := vpKnownOpen(vpC36KeyCT304)
-	noMultiCT := vpKnownOpen(vpC36KeyMultiCT)
+	noInfo := vpC36Open(vpC36KeyInfo)
+	noLate := vpC36Open(vpC36SubLate)
+	noWHLate := vpC36Open(vpC36SubWHLate)
 	model := http.Header{} // the handler's header map so far (only needed for the steering below)
 	p := &vpC36Prog{}
 	committed := false  // net/http has committed status+header
-	explicitWH := false // a WriteHeader call has been made (any code)
+	explicitWH := false // a final (non-1xx) WriteHeader call has been made
 	flushed := false
 
 	headerOp := func() vpC36Op {
 		k := rapid.SampledFrom([]int{vpC36OpAdd, vpC36OpAdd, vpC36OpAdd, vpC36OpSet, vpC36OpDel}).Draw(t, "hkind")
 		op := vpC36Op{Kind: k}
 		op.Name = rapid.SampledFrom(vpC36RespNames).Draw(t, "hname")
-		if k == vpC36OpAdd && noMultiCT && !committed && len(model["Content-Type"]) > 0 && http.CanonicalHeaderKey(op.Name) == "Content-Type" {
-			// a second Content-Type value is the class of an open finding
-			excl[vpC36KeyMultiCT] = true
+		if k == vpC36OpAdd && !committed && len(model["Content-Type"]) > 0 && http.CanonicalHeaderKey(op.Name) == "Content-Type" {
+			// Content-Type is a singleton field (RFC 9110 8.3): a handler that adds a second value
+			// produces a malformed response under either server; not part of the domain (net/http sends
+			// both lines, fasthttp keeps the last - recorded as an observation, not as a finding)
+			vpExtra("singleton_content_type_second_add_steered", 1)
 			k = vpC36OpSet
 			op.Kind = k
 		}
@@ -579,18 +609,13 @@ func vpC36GenProg(t *rapid.T, excl map[string]bool) *vpC36Prog {
 	writeHeaderOp := func() vpC36Op {
 		codes := vpC36Codes
 		if !committed && noInfo {
-			excl[vpC36KeyInfo] = true
+			excl[vpC36Parent[vpC36KeyInfo]] = true
 		} else if rapid.IntRange(0, 3).Draw(t, "infocode") == 0 {
 			codes = vpC36InfoCodes
 		}
 		op := vpC36Op{Kind: vpC36OpWriteHeader, Code: rapid.SampledFrom(codes).Draw(t, "code")}
-		if op.Code == 304 && !committed && noCT304 && len(model["Content-Type"]) > 0 {
-			// 304 with a handler-set Content-Type is the class of an open finding
-			excl[vpC36KeyCT304] = true
-			op.Code = 303
-		}
-		explicitWH = true
 		if op.Code >= 200 {
+			explicitWH = true
 			committed = true
 		}
 		return op
@@ -601,10 +626,9 @@ func vpC36GenProg(t *rapid.T, excl map[string]bool) *vpC36Prog {
 	nPre := rapid.IntRange(0, 5).Draw(t, "npre")
 	for i := 0; i < nPre; i++ {
 		if noInfo {
-			excl[vpC36KeyInfo] = true
+			excl[vpC36Parent[vpC36KeyInfo]] = true
 		} else if rapid.IntRange(0, 4).Draw(t, "preinfo") == 0 {
 			p.Ops = append(p.Ops, vpC36Op{Kind: vpC36OpWriteHeader, Code: rapid.SampledFrom(vpC36InfoCodes).Draw(t, "icode")})
-			explicitWH = true
 			continue
 		}
 		p.Ops = append(p.Ops, headerOp())
@@ -635,12 +659,12 @@ func vpC36GenProg(t *rapid.T, excl map[string]bool) *vpC36Prog {
 	for i := 0; i < nPost; i++ {
 		kinds := []int{vpC36OpWrite, vpC36OpWrite, vpC36OpWrite, vpC36OpFlush, vpC36OpEchoBody}
 		if noLate {
-			excl[vpC36KeyLate] = true
+			excl[vpC36Parent[vpC36SubLate]] = true
 		} else {
 			kinds = append(kinds, vpC36OpAdd, vpC36OpAdd)
 		}
 		if !explicitWH && !flushed && noWHLate {
-			excl[vpC36KeyWHLate] = true
+			excl[vpC36Parent[vpC36SubWHLate]] = true
 		} else {
 			kinds = append(kinds, vpC36OpWriteHeader)
 		}
@@ -704,9 +728,9 @@ func vpC36GenTarget(t *rapid.T, rich bool, excl map[string]bool) string {
 				s += "%41%7e"
 			}
 		}
-		if i == 0 && s == "" && nseg > 0 && vpKnownOpen(vpC36KeySlash2) {
+		if i == 0 && s == "" && nseg > 0 && vpC36Open(vpC36SubSlash2) {
 			// an origin-form target starting with "//" is the class of an open finding
-			excl[vpC36KeySlash2] = true
+			excl[vpC36Parent[vpC36SubSlash2]] = true
 			s = "r"
 		}
 		sb.WriteString(s)
@@ -735,8 +759,8 @@ func vpC36GenReq(t *rapid.T, rich bool, excl map[string]bool) *vpC36Req {
 		r.flags["http10"] = true
 	}
 	hosts := []string{"example.com", "a.b:8080", "localhost", "[::1]:81", "10.0.0.1", "EXAMPLE.org", "Mixed.Case:80"}
-	if vpKnownOpen(vpC36KeyHostLC) {
-		excl[vpC36KeyHostLC] = true
+	if vpC36Open(vpC36SubHostLC) {
+		excl[vpC36Parent[vpC36SubHostLC]] = true
 		hosts = hosts[:5]
 	}
 	host := rapid.SampledFrom(hosts).Draw(t, "host")
@@ -744,7 +768,7 @@ func vpC36GenReq(t *rapid.T, rich bool, excl map[string]bool) *vpC36Req {
 		r.Target = "http://" + rapid.SampledFrom([]string{"other.example", "example.com", "h:99"}).Draw(t, "abshost") + r.Target
 		r.flags["absform"] = true
 	}
-	noSpecial := vpKnownOpen(vpC36KeySpecial)
+	noSpecial := vpC36Open(vpC36SubSpecial)
 	// header lines
 	var lines [][2]string
 	nh := rapid.IntRange(0, 6).Draw(t, "nhdr")
@@ -762,7 +786,7 @@ func vpC36GenReq(t *rapid.T, rich bool, excl map[string]bool) *vpC36Req {
 		var val string
 		if noSpecial && seen[canon] >= 1 && (canon == "Cookie" || canon == "Content-Type" || canon == "User-Agent") {
 			// a second line of a header fasthttp stores in a dedicated single slot
-			excl[vpC36KeySpecial] = true
+			excl[vpC36Parent[vpC36SubSpecial]] = true
 			name, canon = "X-A", "X-A"
 		}
 		switch canon {
@@ -770,7 +794,7 @@ func vpC36GenReq(t *rapid.T, rich bool, excl map[string]bool) *vpC36Req {
 			cookieLines++
 			cks := []string{"a=1", "a=1; b=2", "sid=xyz", "b=2;c=3", "k=v; k=w", "a=1;  b=2"}
 			if noSpecial {
-				excl[vpC36KeySpecial] = true
+				excl[vpC36Parent[vpC36SubSpecial]] = true
 				cks = cks[:3]
 			}
 			val = rapid.SampledFrom(cks).Draw(t, "cookie")
@@ -808,8 +832,8 @@ func vpC36GenReq(t *rapid.T, rich bool, excl map[string]bool) *vpC36Req {
 	if hasBody {
 		r.Body = vpC36GenData(t)
 		r.flags["body"] = true
-		if rich && seen["Content-Type"] == 0 && vpKnownOpen(vpC36KeyMultipart) {
-			excl[vpC36KeyMultipart] = true
+		if rich && seen["Content-Type"] == 0 && vpC36Open(vpC36KeyMultipart) {
+			excl[vpC36Parent[vpC36KeyMultipart]] = true
 		} else if rich && seen["Content-Type"] == 0 && rapid.IntRange(0, 6).Draw(t, "multipart") == 0 {
 			// a well-formed multipart/form-data body (fasthttp's server pre-parses those)
 			r.flags["multipart"] = true
@@ -828,9 +852,9 @@ func vpC36GenReq(t *rapid.T, rich bool, excl map[string]bool) *vpC36Req {
 		}
 	} else if r.Method == "POST" || r.Method == "PUT" || r.Method == "PATCH" {
 		lines = append(lines, [2]string{"Content-Length", "0"})
-	} else if r.Method != "GET" && r.Method != "HEAD" && vpKnownOpen(vpC36KeySynCL) {
+	} else if r.Method != "GET" && r.Method != "HEAD" && vpC36Open(vpC36SubSynCL) {
 		// body-less DELETE/OPTIONS without a Content-Length line is the class of an open finding
-		excl[vpC36KeySynCL] = true
+		excl[vpC36Parent[vpC36SubSynCL]] = true
 		lines = append(lines, [2]string{"Content-Length", "0"})
 	}
 	if rapid.IntRange(0, 3).Draw(t, "connclose") == 0 {
@@ -957,6 +981,7 @@ type vpC36Outcome struct {
 	fastSnap *vpC36Snap
 	info     vpC36ProgInfo
 	harness  string // non-empty: the reference side itself failed (generator problem)
+	rejected bool   // fasthttp's server answered its own 400 before the adaptor ran (no verdict)
 }
 
 func vpC36RunCase(e *vpC36Env, prog *vpC36Prog, req *vpC36Req, mask vpC36Mask) *vpC36Outcome {
@@ -999,6 +1024,12 @@ func vpC36RunCase(e *vpC36Env, prog *vpC36Prog, req *vpC36Req, mask vpC36Mask) *
 	}
 	o.stdSnap = c.snap[0]
 	var diffs []string
+	if c.hits[1].Load() == 0 && o.fast.Err == "" && o.fast.Status == 400 && string(o.fast.Body) == "Error when parsing request" {
+		// fasthttp's SERVER refused to parse the request (its own 400, produced before any handler
+		// runs): the adaptor and ConvertRequest were never involved, so there is nothing to compare.
+		o.rejected = true
+		return o
+	}
 	if c.hits[1].Load() == 0 {
 		diffs = append(diffs, fmt.Sprintf("adaptor side: handler never invoked (client saw status=%d err=%q)", o.fast.Status, o.fast.Err))
 	} else if stuck[1] {
@@ -1048,7 +1079,9 @@ func vpC36RunCase(e *vpC36Env, prog *vpC36Prog, req *vpC36Req, mask vpC36Mask) *
 		// Content-Type: handler-set (present in the handler's map when the header was committed), or
 		// sniffed from body bytes that were available when the header was committed and that the
 		// client actually received. Otherwise it is a server default, not compared.
-		if o.info.ctAtCommit > 0 || (len(o.std.Body) > 0 && !o.info.flushBeforeData) {
+		// On 304 net/http's server strips Content-Type together with Content-Length and
+		// Transfer-Encoding (server-level suppression, not handler behaviour): not compared.
+		if o.std.Status != http.StatusNotModified && (o.info.ctAtCommit > 0 || (len(o.std.Body) > 0 && !o.info.flushBeforeData)) {
 			want["Content-Type"] = o.std.Header["Content-Type"]
 			got["Content-Type"] = o.fast.Header["Content-Type"]
 		}
@@ -1142,15 +1175,30 @@ func vpC36Probes(e *vpC36Env) {
 		saved := vpC36SafetyWait
 		vpC36SafetyWait = 3 * time.Second
 		defer func() { vpC36SafetyWait = saved }()
+
 		get := vpC36RawReq("GET", "/p", "HTTP/1.1", "Host: example.com")
-		run := func(key string, prog *vpC36Prog, req *vpC36Req, pick func(o *vpC36Outcome) string) {
+		present := map[string]bool{}     // per root-cause key
+		details := map[string][]string{} // per root-cause key
+		run := func(sub string, prog *vpC36Prog, req *vpC36Req, pick func(o *vpC36Outcome) string) {
+			key := vpC36Parent[sub]
 			o := vpC36RunCase(e, prog, req, vpC36Mask{})
+			var d string
 			if o.harness != "" {
-				vpProbe(key, true, "probe inconclusive (treated as present): "+o.harness)
-				return
+				d = "probe inconclusive (treated as present): " + o.harness
+			} else if o.rejected {
+				d = ""
+			} else {
+				d = pick(o)
 			}
-			d := pick(o)
-			vpProbe(key, d != "", fmt.Sprintf("program [%s] request %q: %s", prog, req.Raw, strings.ReplaceAll(d, "\n", " | ")))
+			vpC36SubMu.Lock()
+			vpC36SubPresent[sub] = vpC36SubPresent[sub] || d != "" // several probes may feed one sub-symptom
+			vpC36SubMu.Unlock()
+			if d != "" {
+				present[key] = true
+				details[key] = append(details[key], fmt.Sprintf("[%s] program [%s] request %q: %s", sub, prog, req.Raw, strings.ReplaceAll(d, "\n", " | ")))
+			} else if _, ok := present[key]; !ok {
+				present[key] = false
+			}
 		}
 		resp := func(o *vpC36Outcome) string { return o.respDiff }
 		reqField := func(prefix string) func(o *vpC36Outcome) string {
@@ -1166,19 +1214,27 @@ func vpC36Probes(e *vpC36Env) {
 		}
 		ok := vpC36Op{Kind: vpC36OpWrite, Data: []byte("ok")}
 		run(vpC36KeyInfo, &vpC36Prog{Ops: []vpC36Op{{Kind: vpC36OpWriteHeader, Code: 103}, {Kind: vpC36OpWriteHeader, Code: 201}, ok}}, get, resp)
-		run(vpC36KeyLate, &vpC36Prog{Ops: []vpC36Op{ok, {Kind: vpC36OpSet, Name: "X-A", Val: "late"}}}, get, resp)
-		run(vpC36KeyWHLate, &vpC36Prog{Ops: []vpC36Op{ok, {Kind: vpC36OpWriteHeader, Code: 404}}}, get, resp)
-		run(vpC36KeyCT304, &vpC36Prog{Ops: []vpC36Op{{Kind: vpC36OpSet, Name: "Content-Type", Val: "text/plain"}, {Kind: vpC36OpWriteHeader, Code: 304}}}, get, resp)
-		run(vpC36KeyChunked, &vpC36Prog{}, vpC36RawBody(vpC36RawReq("POST", "/p", "HTTP/1.1", "Host: example.com", "X-A: 1", "Transfer-Encoding: chunked", "X-A: 2"), "0\r\n\r\n", ""), reqField(`request header`))
-		run(vpC36KeyMultiCT, &vpC36Prog{Ops: []vpC36Op{{Kind: vpC36OpAdd, Name: "Content-Type", Val: "text/plain"}, {Kind: vpC36OpAdd, Name: "Content-Type", Val: "image/png"}, ok}}, get, resp)
+		run(vpC36SubLate, &vpC36Prog{Ops: []vpC36Op{ok, {Kind: vpC36OpSet, Name: "X-A", Val: "late"}}}, get, resp)
+		run(vpC36SubWHLate, &vpC36Prog{Ops: []vpC36Op{ok, {Kind: vpC36OpWriteHeader, Code: 404}}}, get, resp)
+		run(vpC36KeyMinor, &vpC36Prog{}, vpC36RawReq("GET", "/p", "HTTP/1.0", "Host: example.com"), reqField("ProtoMinor"))
+		run(vpC36SubConn10, &vpC36Prog{}, vpC36RawReq("GET", "/p", "HTTP/1.0", "Host: example.com"), reqField(`request header "Connection"`))
+		run(vpC36SubSynCL, &vpC36Prog{}, vpC36RawReq("DELETE", "/p", "HTTP/1.1", "Host: example.com"), reqField(`request header "Content-Length"`))
+		run(vpC36SubSpecial, &vpC36Prog{}, vpC36RawReq("GET", "/p", "HTTP/1.1", "Host: example.com", "User-Agent: a", "User-Agent: b", "Cookie: a=1", "Cookie: b=2;c=3"), reqField(`request header`))
+		run(vpC36SubChunked, &vpC36Prog{}, vpC36RawBody(vpC36RawReq("POST", "/p", "HTTP/1.1", "Host: example.com", "X-A: 1", "Transfer-Encoding: chunked", "X-A: 2"), "0\r\n\r\n", ""), reqField(`request header`))
+		run(vpC36SubHostLC, &vpC36Prog{}, vpC36RawReq("GET", "/p", "HTTP/1.1", "Host: EXAMPLE.org"), reqField("Host:"))
+		slash2 := func(o *vpC36Outcome) string {
+			if o.fastSnap == nil {
+				return o.diff
+			}
+			return reqField("Host:")(o) + reqField("URL")(o)
+		}
+		run(vpC36SubSlash2, &vpC36Prog{}, vpC36RawReq("GET", "//gv/x1", "HTTP/1.0"), slash2)
+		run(vpC36SubSlash2, &vpC36Prog{}, vpC36RawReq("GET", "//%20x/y", "HTTP/1.1", "Host: example.com"), slash2)
 		mp := "preamble\r\n--vpb\r\ncontent-type: text/plain\r\nContent-Disposition: form-data; name=\"a\"; filename=\"x.txt\"\r\n\r\nfile\r\n--vpb\r\nContent-Disposition: form-data; name=\"b\"\r\n\r\n2\r\n--vpb--\r\nepilogue"
 		run(vpC36KeyMultipart, &vpC36Prog{}, vpC36RawBody(vpC36RawReq("POST", "/p", "HTTP/1.1", "Host: example.com", "Content-Type: multipart/form-data; boundary=vpb", "Content-Length: "+strconv.Itoa(len(mp))), mp, mp), reqField("Body"))
-		run(vpC36KeyMinor, &vpC36Prog{}, vpC36RawReq("GET", "/p", "HTTP/1.0", "Host: example.com"), reqField("ProtoMinor"))
-		run(vpC36KeyConn10, &vpC36Prog{}, vpC36RawReq("GET", "/p", "HTTP/1.0", "Host: example.com"), reqField(`request header "Connection"`))
-		run(vpC36KeyHostLC, &vpC36Prog{}, vpC36RawReq("GET", "/p", "HTTP/1.1", "Host: EXAMPLE.org"), reqField("Host:"))
-		run(vpC36KeySlash2, &vpC36Prog{}, vpC36RawReq("GET", "//gv/x1", "HTTP/1.0"), func(o *vpC36Outcome) string { return o.diff })
-		run(vpC36KeySynCL, &vpC36Prog{}, vpC36RawReq("DELETE", "/p", "HTTP/1.1", "Host: example.com"), reqField(`request header "Content-Length"`))
-		run(vpC36KeySpecial, &vpC36Prog{}, vpC36RawReq("GET", "/p", "HTTP/1.1", "Host: example.com", "User-Agent: a", "User-Agent: b", "Cookie: a=1", "Cookie: b=2;c=3"), reqField(`request header`))
+		for key, p := range present {
+			vpProbe(key, p, strings.Join(details[key], " || "))
+		}
 	})
 }
 
@@ -1190,18 +1246,18 @@ func vpC36Probes(e *vpC36Env) {
 func vpC36MaskFor(req *vpC36Req, excl map[string]bool) vpC36Mask {
 	var m vpC36Mask
 	if req.flags["http10"] {
-		if vpKnownOpen(vpC36KeyMinor) {
+		if vpC36Open(vpC36KeyMinor) {
 			m.minor = true
-			excl[vpC36KeyMinor] = true
+			excl[vpC36Parent[vpC36KeyMinor]] = true
 		}
-		if vpKnownOpen(vpC36KeyConn10) {
+		if vpC36Open(vpC36SubConn10) {
 			m.conn10 = true
-			excl[vpC36KeyConn10] = true
+			excl[vpC36Parent[vpC36SubConn10]] = true
 		}
 	}
-	if req.Chunked && len(req.Body) == 0 && vpKnownOpen(vpC36KeyChunked) {
+	if req.Chunked && len(req.Body) == 0 && vpC36Open(vpC36SubChunked) {
 		m.chunk = true
-		excl[vpC36KeyChunked] = true
+		excl[vpC36Parent[vpC36SubChunked]] = true
 	}
 	return m
 }
@@ -1226,6 +1282,10 @@ func TestVP_C36_Handler(t *testing.T) {
 		}
 		if o.harness != "" {
 			t.Fatalf("VP-INCONCLUSIVE harness/reference failure (not a property verdict): %s\nrequest %q\nprogram %s", o.harness, req.Raw, prog)
+		}
+		if o.rejected {
+			vpCase("rejectedByFasthttpServer", false, string(req.Raw), func() string { return fmt.Sprintf("%q", req.Raw) })
+			return
 		}
 		in := o.info
 		nontrivial := len(prog.Ops) >= 2 && (in.writes > 0 || len(in.touched) > 0 || in.flush)
@@ -1262,6 +1322,10 @@ func TestVP_C36_Request(t *testing.T) {
 		}
 		if o.harness != "" {
 			t.Fatalf("VP-INCONCLUSIVE harness/reference failure (not a property verdict): %s\nrequest %q\nprogram %s", o.harness, req.Raw, prog)
+		}
+		if o.rejected {
+			vpCase("rejectedByFasthttpServer", false, string(req.Raw), func() string { return fmt.Sprintf("%q", req.Raw) })
+			return
 		}
 		nontrivial := len(req.Lines) >= 2 || len(req.Body) > 0 || strings.ContainsAny(req.Target, "%?")
 		vpCase(vpC36ReqClassOf(req), nontrivial, string(req.Raw), func() string {
